@@ -472,6 +472,41 @@ def ob_union(k, mode):
     return held("%d tuples" % n)
 
 
+def ob_boundary_vertices_native(gridname):
+    """bounded link: the slice under contract, run by CPython on the real grid's edge table and edge flags, reproduces grid.vertex_on_boundary; its `requires` hold; the
+    edge flags (scipy product, not under the deductive contract) mark exactly the sides that belong to one element, and the vertex flags equal the end points of those
+    sides computed from the element list alone."""
+    import importlib
+    from vlib import vnative as VN, zoo as Z
+
+    grid = Z.grid_with_domains(gridname)
+    block, contract, params = VR.native_block("contracts.dofmap_blocks", "_boundary_vertices")
+    edges = np.asarray(grid.edges).astype(int)
+    arr1 = np.asarray(grid.edge_on_boundary).astype(int)
+    env = VN.bind_shapes(contract, {"edges": edges, "arr1": arr1, "number_of_vertices": int(grid.number_of_vertices)})
+    for t in contract["requires"]:
+        if not VN.evaluate(t, env):
+            return violated("the real grid does not satisfy the `requires` of the boundary-vertex slice: %s" % t[:100], signature="boundary-vertices/requires", replay={"confirmed": True})
+    res = np.asarray(block(edges, np.asarray(grid.edge_on_boundary), int(grid.number_of_vertices))).astype(int)
+    env["result"] = res
+    for t in contract["ensures"]:
+        if not VN.evaluate(t, env):
+            return violated("boundary-vertex slice violates its contract natively on %s: %s" % (gridname, t[:100]), signature="boundary-vertices/ensures", replay={"confirmed": True})
+    count = {}
+    for E in range(grid.number_of_elements):
+        v = [int(x) for x in grid.elements[:, E]]
+        for a, b in ((v[0], v[1]), (v[1], v[2]), (v[2], v[0])):
+            count[(min(a, b), max(a, b))] = count.get((min(a, b), max(a, b)), 0) + 1
+    want_edges = {k for k, c in count.items() if c == 1}
+    got_edges = {(int(min(edges[:, x])), int(max(edges[:, x]))) for x in range(edges.shape[1]) if arr1[x]}
+    want_v = {a for k in want_edges for a in k}
+    if got_edges != want_edges or set(np.flatnonzero(grid.vertex_on_boundary).tolist()) != want_v or set(np.flatnonzero(res).tolist()) != want_v:
+        return violated("boundary flags of %s differ from the sides that belong to exactly one element: edges %s, vertices %s (expected vertices %s)"
+                        % (gridname, sorted(got_edges ^ want_edges)[:4], sorted(set(np.flatnonzero(grid.vertex_on_boundary).tolist()) ^ want_v)[:6], sorted(want_v)[:8]),
+                        witness={"grid": gridname}, signature="boundary-vertices/native", replay={"confirmed": True})
+    return held("%d boundary edges, %d boundary vertices" % (len(want_edges), len(want_v)))
+
+
 def main():
     run = Run("C11", "proof")
     thorough = run.tier == "thorough"
@@ -487,6 +522,13 @@ def main():
             run.add("%s::mutation-canary" % name, "lemma", VR.ob_canary, GRID, name, CM)
     from bempp_cl.api.grid import grid as G
 
+    # vertex part of the boundary flags (program slice of Grid._compute_boundary_information): a vertex is flagged iff it is an end point of a flagged edge (all sizes)
+    VR.add_block(run, "contracts.dofmap_blocks", "_boundary_vertices")
+    run.add("_boundary_vertices::canary", "cover", VR.ob_block_canary, "contracts.dofmap_blocks", "_boundary_vertices",
+            [("edges[:, boundary_edge_index]", "edges[0, boundary_edge_index]"), ("_np.flatnonzero(arr1)", "_np.flatnonzero(arr1 == 0)"),
+             ("_np.full(number_of_vertices, False)", "_np.full(number_of_vertices, True)")])
+    for gname in ("screen2", "octa", "two_tets_face") + (("screen3",) if thorough else ()):
+        run.add("_boundary_vertices::native[%s]" % gname, "bounded", ob_boundary_vertices_native, gname)
     run.under_contract(G.Grid._compute_geometric_quantities, dropped="numpy linalg shims (vlib/objnp.py)")
     run.under_contract(G.Grid.refine)
     run.under_contract(G._create_barycentric_connectivity_array)
